@@ -440,8 +440,9 @@ Qed.
 
 (* on a `lead` line the optional multi-line trivia is exactly the leading blanks, whatever follows the line *)
 Lemma opt_multiline_on_lead y : lineb y = true -> lead y ->
-  exists (tf : N -> option ltrivia) sp y2, sfx y2 y /\
-    forall st o rest, opt multiline_trivia st (mkIn o (y ++ 10 :: rest)) = (st, Ok (tf o) (mkIn (o + blen sp) (y2 ++ 10 :: rest))).
+  exists (tf : N -> option ltrivia),
+    forall st o rest, opt multiline_trivia st (mkIn o (y ++ 10 :: rest)) =
+      (st, Ok (tf o) (mkIn (o + blen (fst (take_while is_space y))) (snd (take_while is_space y) ++ 10 :: rest))).
 Proof.
   intros Hl Hlead. unfold lead in Hlead. pose proof (take_while_sfx is_space y) as Hsf.
   pose proof (take_while_split is_space y) as [Hsp Hc_space].
@@ -451,13 +452,12 @@ Proof.
   pose proof (lineb_sfx _ _ Hsf Hl) as Hl2. destruct (lineb_head _ _ Hl2) as [H10 H13].
   assert (Hcmt : forall rest, starts_comment c (r ++ 10 :: rest) = false).
   { intros rest. unfold starts_comment. destruct (c =? 47) eqn:E; [|reflexivity]. cbn. destruct r as [|d r']; cbn; [reflexivity|].
-    pose proof (lineb_no_open _ _ _ Hl2) as Ho. rewrite E in Ho, Hlead. cbn in Ho, Hlead. rewrite Ho, Hlead. reflexivity. }
+    pose proof (lineb_no_open _ _ _ Hl2) as Ho. rewrite E in Ho. cbn in Ho, Hlead. rewrite Ho, Hlead. reflexivity. }
   destruct sp as [|s0 sp].
-  - exists (fun _ => None), [], (c :: r). split; [assumption|]. intros st o rest. cbn [app] in Hy. subst y.
+  - exists (fun _ => None). intros st o rest. cbn [app] in Hy. subst y.
     unfold opt, multiline_trivia, map_p, located_p, many1, map_p, pair_p. cbn [app].
     rewrite (no_trivia_item_here st o c (r ++ 10 :: rest) Hc_space H10 H13 (Hcmt rest)). cbn. rewrite N.add_0_r. reflexivity.
-  - exists (fun o => Some (mkTriv o (o + blen (s0 :: sp)) [TWhitespace (s0 :: sp)])), (s0 :: sp), (c :: r).
-    split; [assumption|]. intros st o rest. subst y.
+  - exists (fun o => Some (mkTriv o (o + blen (s0 :: sp)) [TWhitespace (s0 :: sp)])). intros st o rest. subst y.
     unfold opt, multiline_trivia, map_p, located_p, many1, map_p, pair_p. rewrite <- app_assoc. cbn [app].
     change (s0 :: sp ++ c :: r ++ 10 :: rest) with ((s0 :: sp) ++ c :: (r ++ 10 :: rest)).
     rewrite (blanks_item st o s0 sp c (r ++ 10 :: rest) Hsp Hc_space).
@@ -467,7 +467,8 @@ Qed.
 
 Lemma mws_local2 {A} n (p p' : parser A) : local2 anyL n p p' -> local2 lead n (mws p) (mws p').
 Proof.
-  intros Hp rest rest' st o y Hl HL Hn. destruct (opt_multiline_on_lead y Hl HL) as [tf [sp [y2 [Hsf Ho]]]].
+  intros Hp rest rest' st o y Hl HL Hn. destruct (opt_multiline_on_lead y Hl HL) as [tf Ho].
+  pose proof (take_while_sfx is_space y) as Hsf. set (sp := fst (take_while is_space y)) in *. set (y2 := snd (take_while is_space y)) in *.
   unfold mws, with_trivia. rewrite !Ho.
   pose proof (Hp rest rest' st (o + blen sp) y2 (lineb_sfx _ _ Hsf Hl) I) as Hq.
   assert (Hlen : (length y2 <= n)%nat) by (apply sfx_length in Hsf; lia). specialize (Hq Hlen). unfold R2 in *.
@@ -485,5 +486,658 @@ Qed.
 (* a wrapper the table says is not mws *)
 Lemma wr_local2_inner {A} L n w (p p' : parser A) : w <> W_mws -> local2 anyL n p p' -> local2 L n (wr w p) (wr w p').
 Proof.
-  intros Hw Hp. eapply local2_weaken; [apply wr_local2; exact Hp|]. intros y _. destruct w; cbn; auto. congruence.
+  intros Hw Hp. eapply local2_weaken; [apply wr_local2; exact Hp|]. intros y _. destruct w; cbn; try exact I. exfalso. apply Hw. reflexivity.
 Qed.
+
+Lemma nested_local2 {A} L n k (p p' : parser A) : local2 L n p p' -> local2 L n (nested k p) (nested k p').
+Proof.
+  intros Hp rest rest' st o y Hl HL Hn. unfold nested. destruct (nesting (enter_nesting st) <=? k)%nat.
+  - pose proof (Hp rest rest' (enter_nesting st) o y Hl HL Hn) as H. unfold R2 in *.
+    destruct (p (enter_nesting st) _) as [s R], (p' (enter_nesting st) _) as [s' R']. cbn in *. destruct H as [-> H]. split; [reflexivity|exact H].
+  - split; cbn; auto.
+Qed.
+Lemma peek_local2 {A} L n (p p' : parser A) : local2 L n p p' -> local2 L n (peek p) (peek p').
+Proof.
+  intros Hp rest rest' st o y Hl HL Hn. pose proof (Hp rest rest' st o y Hl HL Hn) as H. unfold peek, R2 in *.
+  destruct (p st _) as [s [v r| |a]], (p' st _) as [s' [v' r'| |a']]; cbn in *; destruct H as [Hs H]; try contradiction; subst; split; auto.
+  destruct H as [-> _]. split; [reflexivity|]. split; [reflexivity|]. exists y. split; [apply sfx_refl|split; reflexivity].
+Qed.
+
+Ltac not_mws := cbv; discriminate.
+
+(* ---------------------------------------------------------------- identifiers, keywords, strings, numbers *)
+Lemma identifier_name_local : local identifier_name.
+Proof.
+  intros n. unfold identifier_name. apply recognize_local2. apply pair_local2.
+  - apply alt_local2; [apply take_while1_local; reflexivity|apply tag_local; reflexivity].
+  - apply many0_local2. apply alt_local2; [apply take_while1_local; reflexivity|apply tag_local; reflexivity].
+Qed.
+Lemma identifier_scope_local : local identifier_scope.
+Proof.
+  intros n. unfold identifier_scope. apply map_local2. apply pair_local2.
+  - apply alt_local2; apply char_local; discriminate.
+  - apply not_local2. apply take_while1_local. reflexivity.
+Qed.
+Lemma identifier_path_local : local identifier_path.
+Proof.
+  intros n. unfold identifier_path. apply map_local2. apply wr_local2_inner; [not_mws|].
+  apply separated_list1_local2; [|apply char_local; discriminate].
+  apply alt_local2; [apply identifier_scope_local|apply identifier_name_local].
+Qed.
+
+Lemma table_no10 (table : list (text * text)) : forallb (fun k => no10 (fst k)) table = true ->
+  forall e, In e table -> no10 (fst e) = true.
+Proof. intros H e He. rewrite forallb_forall in H. apply H. assumption. Qed.
+Lemma keyword_local k : no10 (fst k) = true -> local (keyword_p k).
+Proof. intros Hk n. unfold keyword_p. apply map_local2. apply tag_no_case_local. assumption. Qed.
+Lemma tagged_local {V} (table : list (text * V)) : forallb (fun e => no10 (fst e)) table = true -> local (tagged table).
+Proof.
+  intros H n. unfold tagged. apply alts_map_local2. intros e He. apply map_local2. apply tag_no_case_local.
+  rewrite forallb_forall in H. apply H. assumption.
+Qed.
+Lemma mnemonic_of_local table : forallb (fun k => no10 (fst k)) table = true -> local (mnemonic_of table).
+Proof.
+  intros H n. unfold mnemonic_of. apply alts_map_local2. intros e He. apply keyword_local.
+  rewrite forallb_forall in H. apply H. assumption.
+Qed.
+
+Lemma string_chunk_local w : w <> W_mws -> local (string_chunk w).
+Proof.
+  intros Hw n. unfold string_chunk. apply map_local2. apply wr_local2_inner; [assumption|].
+  apply recognize_local2, many1_local2. apply satisfy_local. reflexivity.
+Qed.
+Lemma interpolated_string_local : local interpolated_string.
+Proof.
+  intros n. unfold interpolated_string. apply map_local2. apply pair_local2.
+  - apply wr_local2_inner; [not_mws|]. apply char_local. discriminate.
+  - apply pair_local2; [|apply char_local; discriminate]. apply many0_local2. apply alt_local2.
+    + apply string_chunk_local. not_mws.
+    + apply map_local2. apply pair_local2; [apply char_local; discriminate|].
+      apply pair_local2; [|apply char_local; discriminate]. apply wr_local2_inner; [not_mws|apply identifier_path_local].
+Qed.
+
+Lemma digits_local w (q : parser text) : w <> W_mws -> local q -> local (wr w (recognize (many1 q))).
+Proof. intros Hw Hq n. apply wr_local2_inner; [assumption|]. apply recognize_local2, many1_local2, Hq. Qed.
+Lemma number_local : local number.
+Proof.
+  intros n. unfold number. apply wr_local2_inner; [not_mws|]. apply map_local2. cbn [alts]. repeat apply alt_local2; [| | | | |apply fail_local2].
+  - apply pair_local2; [apply map_local2, wr_local2_inner; [not_mws|apply char_local; discriminate]|].
+    apply digits_local; [not_mws|]. intros m. apply take_while1_local. reflexivity.
+  - apply pair_local2; [apply map_local2, wr_local2_inner; [not_mws|apply char_local; discriminate]|].
+    apply digits_local; [not_mws|]. intros m. apply take_while1_local. reflexivity.
+  - apply pair_local2; [apply wr_local2_inner; [not_mws|apply value_local]|].
+    apply digits_local; [not_mws|]. intros m. apply take_while1_local. reflexivity.
+  - apply pair_local2; [apply wr_local2_inner; [not_mws|apply value_local]|].
+    apply wr_local2_inner; [not_mws|]. apply tag_no_case_local. reflexivity.
+  - apply pair_local2; [apply wr_local2_inner; [not_mws|apply value_local]|].
+    apply wr_local2_inner; [not_mws|]. apply tag_no_case_local. reflexivity.
+Qed.
+Lemma modifier_local : local modifier_p.
+Proof. intros n. unfold modifier_p. apply alts_map_local2. intros e He. apply map_local2. apply char_local.
+  cbn in He. repeat (destruct He as [<-|He]; [discriminate|]). destruct He. Qed.
+Lemma identifier_value_local : local identifier_value.
+Proof.
+  intros n. unfold identifier_value. apply wr_local2_inner; [not_mws|]. apply map_local2. apply pair_local2.
+  - apply opt_local2. apply wr_local2_inner; [not_mws|apply modifier_local].
+  - apply wr_local2_inner; [not_mws|apply identifier_path_local].
+Qed.
+Lemma current_pc_local : local current_pc.
+Proof.
+  intros n. unfold current_pc. apply wr_local2_inner; [not_mws|]. apply map_local2. apply wr_local2_inner; [not_mws|]. apply char_local. discriminate.
+Qed.
+Lemma interpolated_string_factor_local : local interpolated_string_factor.
+Proof. intros n. unfold interpolated_string_factor. apply wr_local2_inner; [not_mws|]. apply map_local2. apply interpolated_string_local. Qed.
+Lemma operator_local table : forallb (fun e => no10 (fst e)) table = true -> local (operator table).
+Proof.
+  intros H n. unfold operator. apply alts_map_local2. intros e He. apply map_local2. apply tag_local.
+  rewrite forallb_forall in H. apply H. assumption.
+Qed.
+
+Lemma wr_char_consumes w c : consumes (wr w (char_p c)).
+Proof.
+  apply (consumes_of_sound a_char). { apply wr_char_sound. }
+  intros st i st' v r E. unfold a_char. rewrite exact_app. unfold exact at 2. cbn. destruct (exact (a_triv (triv v))); discriminate.
+Qed.
+
+(* ---------------------------------------------------------------- argument lists *)
+Lemma arg_list_loop_local2 {T} n (item item' : parser T) : local2 anyL n item item' ->
+  forall f f' acc cur rest rest' st o y, lineb y = true -> (length y <= n)%nat -> (length y < f)%nat -> (length y < f')%nat ->
+    R2 y rest rest' (arg_list_loop f item acc cur st (mkIn o (y ++ 10 :: rest))) (arg_list_loop f' item' acc cur st (mkIn o (y ++ 10 :: rest'))).
+Proof.
+  intros Hi f. induction f as [|g IH]; intros f' acc cur rest rest' st o y Hl Hn Hf Hf'; [lia|].
+  destruct f' as [|g']; [lia|]. cbn [arg_list_loop].
+  assert (Hc : local2 anyL n (wr (slot W_arg_list 1) (char_p 44)) (wr (slot W_arg_list 1) (char_p 44))).
+  { apply wr_local2_inner; [not_mws|apply char_local; discriminate]. }
+  pose proof (Hc rest rest' st o y Hl I Hn) as H. unfold R2 in H.
+  destruct (wr (slot W_arg_list 1) (char_p 44) st (mkIn o (y ++ 10 :: rest))) as [s [comma r| |a]] eqn:E1,
+           (wr (slot W_arg_list 1) (char_p 44) st (mkIn o (y ++ 10 :: rest'))) as [s' [comma' r'| |a']] eqn:E2;
+    cbn in H; destruct H as [Hs H]; try contradiction; subst.
+  - destruct H as [-> [Ho [y2 [Hsf [Hr Hr']]]]].
+    apply wr_char_consumes in E1. cbn [rem] in E1. rewrite Hr, !app_length in E1. cbn [length] in E1.
+    assert (Hi2 : local2 anyL n (wr (slot W_arg_list 2) item) (wr (slot W_arg_list 2) item')) by (apply wr_local2_inner; [not_mws|exact Hi]).
+    pose proof (Hi2 rest rest' s' (off r) y2 (lineb_sfx _ _ Hsf Hl) I) as H2.
+    assert (Hlen2 : (length y2 <= n)%nat) by lia. specialize (H2 Hlen2).
+    rewrite (input_eta r), (input_eta r'), Hr, Hr', <- Ho. unfold R2 in H2.
+    destruct (wr (slot W_arg_list 2) item s' _) as [t [next u| |b]], (wr (slot W_arg_list 2) item' s' _) as [t' [next' u'| |b']];
+      cbn in H2; destruct H2 as [Ht H2]; try contradiction; subst; try (split; cbn; auto; fail).
+    destruct H2 as [-> [Ho2 [y3 [Hsf3 [Hu Hu']]]]]. pose proof (sfx_length _ _ Hsf3) as Hl3.
+    specialize (IH g' (acc ++ [(cur, Some comma')]) next' rest rest' t' (off u) y3 (lineb_sfx _ _ Hsf3 (lineb_sfx _ _ Hsf Hl))).
+    rewrite (input_eta u), (input_eta u'), Hu, Hu', <- Ho2.
+    assert (Hx : R2 y3 rest rest' (arg_list_loop g item (acc ++ [(cur, Some comma')]) next' t' (mkIn (off u) (y3 ++ 10 :: rest)))
+                                 (arg_list_loop g' item' (acc ++ [(cur, Some comma')]) next' t' (mkIn (off u) (y3 ++ 10 :: rest')))).
+    { apply IH; lia. }
+    unfold R2 in Hx |- *.
+    destruct (arg_list_loop g item _ _ t' _) as [q [l w| |b]], (arg_list_loop g' item' _ _ t' _) as [q' [l' w'| |b']];
+      cbn in *; destruct Hx as [Hq Hx]; try contradiction; subst; split; auto.
+    destruct Hx as [-> [Ho3 [y4 [Hsf4 [Hw Hw']]]]]. split; [reflexivity|]. split; [assumption|].
+    exists y4. split; [eapply sfx_trans; [eassumption|eapply sfx_trans; eassumption]|split; assumption].
+  - split; cbn; auto. split; [reflexivity|]. split; [reflexivity|]. exists y. split; [apply sfx_refl|split; reflexivity].
+  - split; cbn; auto.
+Qed.
+Lemma arg_list_local2 {T} L n (item item' : parser T) : local2 anyL n item item' -> local2 L n (arg_list item) (arg_list item').
+Proof.
+  intros Hi rest rest' st o y Hl _ Hn. unfold arg_list.
+  assert (Hi0 : local2 anyL n (wr (slot W_arg_list 0) item) (wr (slot W_arg_list 0) item')) by (apply wr_local2_inner; [not_mws|exact Hi]).
+  pose proof (Hi0 rest rest' st o y Hl I Hn) as H. unfold R2 in H.
+  destruct (wr (slot W_arg_list 0) item st _) as [s [first r| |a]], (wr (slot W_arg_list 0) item' st _) as [s' [first' r'| |a']];
+    cbn in H; destruct H as [Hs H]; try contradiction; subst; try (split; cbn; auto; fail).
+  destruct H as [-> [Ho [y2 [Hsf [Hr Hr']]]]]. pose proof (sfx_length _ _ Hsf) as Hl2.
+  rewrite (input_eta r), (input_eta r'), Hr, Hr', <- Ho. cbn [rem].
+  assert (Hx : R2 y2 rest rest' (arg_list_loop (S (length (y2 ++ 10 :: rest))) item [] first' s' (mkIn (off r) (y2 ++ 10 :: rest)))
+                               (arg_list_loop (S (length (y2 ++ 10 :: rest'))) item' [] first' s' (mkIn (off r) (y2 ++ 10 :: rest')))).
+  { apply (arg_list_loop_local2 n); auto; try lia; try (eapply lineb_sfx; eassumption); rewrite app_length; cbn [length]; lia. }
+  unfold R2 in Hx |- *.
+  destruct (arg_list_loop _ item _ _ s' _) as [q [l w| |b]], (arg_list_loop _ item' _ _ s' _) as [q' [l' w'| |b']];
+    cbn in *; destruct Hx as [Hq Hx]; try contradiction; subst; split; auto.
+  destruct Hx as [-> [Ho3 [y4 [Hsf4 [Hw Hw']]]]]. split; [reflexivity|]. split; [assumption|].
+  exists y4. split; [eapply sfx_trans; eassumption|split; assumption].
+Qed.
+
+(* ---------------------------------------------------------------- expressions (two parsers: the fuel differs between the runs) *)
+Section Expr.
+  Variables (n : nat) (pe pe' : parser (located expr)).
+  (* the recursive occurrences are reached only after an opening parenthesis was consumed *)
+  Hypothesis Hrec : forall m, (m < n)%nat -> local2 anyL m pe pe'.
+
+  Lemma expression_arg_list_rec m : (m < n)%nat -> local2 anyL m (expression_arg_list pe) (expression_arg_list pe').
+  Proof. intros Hm. unfold expression_arg_list. apply arg_list_local2. apply map_local2. apply Hrec. assumption. Qed.
+
+  Lemma expression_parens_local2 : local2 anyL n (expression_parens pe) (expression_parens pe').
+  Proof.
+    unfold expression_parens. apply wr_local2_inner; [not_mws|]. apply map_local2.
+    apply pair_local2_rec; [apply wr_local2_inner; [not_mws|apply char_local; discriminate]|apply wr_char_consumes|].
+    intros m Hm. apply pair_local2; [apply nested_local2, Hrec; assumption|].
+    apply wr_local2_inner; [not_mws|apply char_local; discriminate].
+  Qed.
+  Lemma fn_call_parts_local2 (L : text -> Prop) b : (b = true -> forall y, L y -> lead y) ->
+    local2 L n (fn_call_parts pe b) (fn_call_parts pe' b).
+  Proof.
+    intros HL. unfold fn_call_parts. apply pair_local2.
+    - destruct b.
+      + eapply local2_weaken; [apply wr_local2; apply identifier_name_local|]. intros y Hy.
+        change (wrapL (slot W_fn_call_impl 1)) with lead. apply HL; auto.
+      + apply wr_local2_inner; [not_mws|apply identifier_name_local].
+    - apply pair_local2_rec; [apply wr_local2_inner; [not_mws|apply char_local; discriminate]|apply wr_char_consumes|].
+      intros m Hm. apply pair_local2; [|apply wr_local2_inner; [not_mws|apply char_local; discriminate]].
+      apply opt_local2, nested_local2, expression_arg_list_rec. assumption.
+  Qed.
+  Lemma fn_call_impl_local2 : local2 anyL n (fn_call_impl pe false) (fn_call_impl pe' false).
+  Proof.
+    unfold fn_call_impl. apply wr_local2_inner; [not_mws|]. apply map_local2. apply fn_call_parts_local2. discriminate.
+  Qed.
+  Lemma expression_factor_inner_local2 : local2 anyL n (expression_factor_inner pe) (expression_factor_inner pe').
+  Proof.
+    unfold expression_factor_inner. apply alts_map_local2. intros k _. destruct k; cbn [factor_alt].
+    - apply number_local.
+    - apply fn_call_impl_local2.
+    - apply identifier_value_local.
+    - apply current_pc_local.
+    - apply expression_parens_local2.
+    - apply interpolated_string_factor_local.
+  Qed.
+  Lemma expression_factor_local2 : local2 anyL n (expression_factor pe) (expression_factor pe').
+  Proof.
+    unfold expression_factor. apply wr_local2_inner; [not_mws|]. apply alt_local2.
+    - apply map_local2, expression_factor_inner_local2.
+    - apply map_local2. apply pair_local2; [apply peek_local2, satisfy_local; reflexivity|].
+      apply pair_local2; [apply opt_local2, wr_local2_inner; [not_mws|apply char_local; discriminate]|].
+      apply pair_local2; [apply opt_local2, wr_local2_inner; [not_mws|apply char_local; discriminate]|].
+      apply expression_factor_inner_local2.
+  Qed.
+  Lemma expression_term_local2 : local2 anyL n (expression_term pe) (expression_term pe').
+  Proof.
+    unfold expression_term. apply map_local2. apply pair_local2; [apply expression_factor_local2|].
+    apply many0_local2. apply pair_local2; [|apply expression_factor_local2].
+    apply wr_local2_inner; [not_mws|]. apply operator_local. reflexivity.
+  Qed.
+  Lemma expression_body_local2 : local2 anyL n (expression_body pe) (expression_body pe').
+  Proof.
+    unfold expression_body. apply map_local2. apply pair_local2; [apply expression_term_local2|].
+    apply many0_local2. apply pair_local2; [|apply expression_term_local2].
+    apply wr_local2_inner; [not_mws|]. apply operator_local. reflexivity.
+  Qed.
+End Expr.
+
+Lemma expression_fuel_local2 : forall n f f', (n < f)%nat -> (n < f')%nat -> local2 anyL n (expression_fuel f) (expression_fuel f').
+Proof.
+  induction n as [n IH] using (well_founded_induction lt_wf). intros f f' Hf Hf'.
+  destruct f as [|g]; [lia|]. destruct f' as [|g']; [lia|]. cbn [expression_fuel].
+  intros rest rest' st o y Hl HL Hn.
+  apply (expression_body_local2 n (expression_fuel g) (expression_fuel g')); auto.
+  intros m Hm. apply IH; lia.
+Qed.
+Lemma expression_local : local expression.
+Proof.
+  intros n rest rest' st o y Hl HL Hn. unfold expression. cbn [rem].
+  apply (expression_fuel_local2 (length y)); auto; rewrite app_length; cbn [length]; lia.
+Qed.
+Lemma expression_args_local : local expression_args.
+Proof. intros n. unfold expression_args, expression_arg_list. apply arg_list_local2. apply map_local2. apply expression_local. Qed.
+
+(* ---------------------------------------------------------------- operands and the block-free statement forms *)
+Lemma head_local2 {A} n w (p p' : parser A) : local2 anyL n p p' -> local2 lead n (wr w p) (wr w p').
+Proof.
+  intros Hp. eapply local2_weaken; [apply wr_local2; exact Hp|]. intros y Hy. destruct w; cbn; auto; exact I.
+Qed.
+
+Lemma register_suffix_local e : In e register_tags -> local (register_suffix_p e).
+Proof.
+  intros He n. unfold register_suffix_p. apply map_local2. apply pair_local2.
+  - apply wr_local2_inner; [not_mws|apply char_local; discriminate].
+  - apply wr_local2_inner; [not_mws|]. apply tag_no_case_local.
+    cbn in He. repeat (destruct He as [<-|He]; [reflexivity|]). destruct He.
+Qed.
+Lemma optional_suffix_local : local optional_suffix.
+Proof. intros n. unfold optional_suffix. apply opt_local2. apply alts_map_local2. intros e He. apply register_suffix_local. assumption. Qed.
+Lemma operand_local : local operand.
+Proof.
+  intros n. unfold operand. cbn [alts]. repeat apply alt_local2; [| | | |apply fail_local2]; apply map_local2.
+  - apply pair_local2; [apply wr_local2_inner; [not_mws|apply char_local; discriminate]|apply expression_local].
+  - apply pair_local2; [apply wr_local2_inner; [not_mws|apply char_local; discriminate]|].
+    apply pair_local2; [apply expression_local|]. apply pair_local2; [|apply optional_suffix_local].
+    apply wr_local2_inner; [not_mws|apply char_local; discriminate].
+  - apply pair_local2; [apply wr_local2_inner; [not_mws|apply char_local; discriminate]|].
+    apply pair_local2; [apply expression_local|]. apply pair_local2; [apply optional_suffix_local|].
+    apply wr_local2_inner; [not_mws|apply char_local; discriminate].
+  - apply pair_local2; [apply expression_local|apply optional_suffix_local].
+Qed.
+
+Lemma instruction_local n : local2 lead n instruction instruction.
+Proof.
+  unfold instruction. apply alt_local2; apply map_local2; (apply pair_local2; [apply head_local2, mnemonic_of_local; reflexivity|]).
+  - apply expect_local2, operand_local.
+  - apply expect_local2, not_local2, operand_local.
+Qed.
+Lemma kw_local2 n w k : no10 (fst k) = true -> local2 lead n (wr w (keyword_p k)) (wr w (keyword_p k)).
+Proof. intros Hk. apply head_local2. apply keyword_local. assumption. Qed.
+
+Lemma data_local n : local2 lead n data_ data_.
+Proof.
+  unfold data_. apply map_local2. apply pair_local2; [|apply expect_local2, expression_args_local].
+  apply alts_map_local2. intros [k e] He. apply head_local2. apply tagged_local. apply in_combine_r in He.
+  cbn in He. cbn [snd forallb]. repeat (destruct He as [<-|He]; [reflexivity|]). destruct He.
+Qed.
+Lemma varconst_impl_local n k : no10 (fst k) = true -> local2 lead n (varconst_impl k) (varconst_impl k).
+Proof.
+  intros Hk. unfold varconst_impl. apply map_local2. apply pair_local2; [apply head_local2, tagged_local; cbn; rewrite Hk; reflexivity|].
+  apply pair_local2; [apply wr_local2_inner; [not_mws|apply identifier_name_local]|].
+  apply pair_local2; [apply wr_local2_inner; [not_mws|apply char_local; discriminate]|apply expression_local].
+Qed.
+Lemma pc_definition_local n : local2 lead n pc_definition pc_definition.
+Proof.
+  unfold pc_definition. apply map_local2. apply pair_local2; [apply head_local2, char_local; discriminate|].
+  apply pair_local2; [apply wr_local2_inner; [not_mws|apply char_local; discriminate]|apply expression_local].
+Qed.
+Lemma align_local n : local2 lead n align align.
+Proof. unfold align. apply map_local2. apply pair_local2; [apply kw_local2; reflexivity|apply expression_local]. Qed.
+Lemma text_local n : local2 lead n text_ text_.
+Proof.
+  unfold text_. apply map_local2. apply pair_local2; [apply kw_local2; reflexivity|]. apply alt_local2; apply map_local2.
+  - apply pair_local2; [|apply expression_local]. apply wr_local2_inner; [not_mws|]. apply tagged_local. reflexivity.
+  - apply expression_local.
+Qed.
+Lemma file_local n : local2 lead n file file.
+Proof. unfold file. apply map_local2. apply pair_local2; [apply kw_local2; reflexivity|apply interpolated_string_local]. Qed.
+Lemma assert_local n : local2 lead n assert assert.
+Proof.
+  unfold assert. apply map_local2. apply pair_local2; [apply kw_local2; reflexivity|].
+  apply pair_local2; [apply expression_local|apply opt_local2, interpolated_string_local].
+Qed.
+Lemma trace_local n : local2 lead n trace trace.
+Proof.
+  unfold trace. apply map_local2. apply pair_local2; [apply kw_local2; reflexivity|]. apply opt_local2.
+  apply pair_local2; [apply wr_local2_inner; [not_mws|apply char_local; discriminate]|].
+  apply pair_local2; [apply opt_local2, expression_args_local|apply wr_local2_inner; [not_mws|apply char_local; discriminate]].
+Qed.
+Lemma macro_invocation_local n : local2 lead n macro_invocation macro_invocation.
+Proof.
+  unfold macro_invocation. apply map_local2. apply (fn_call_parts_local2 n expression expression); [|auto].
+  intros m _. apply expression_local.
+Qed.
+
+(* ---------------------------------------------------------------- forms with an mws terminal INSIDE (from the wrapper tables) *)
+(* their first terminals; when these do not match the line, the form fails on the line itself *)
+Definition block_heads : list (parser unit) :=
+  [ map_p (fun _ => tt) (wr (slot W_block 0) (char_p 123));                                                   (* braces *)
+    map_p (fun _ => tt) (pair_p (wr (slot W_label 0) identifier_name) (wr (slot W_label 1) (char_p 58)));      (* label (+ optional block) *)
+    map_p (fun _ => tt) (wr (slot W_config_definition 0) (keyword_p (kw kw_config_definition 0)));             (* .define + config map *)
+    map_p (fun _ => tt) (wr (slot W_macro_definition 0) (keyword_p (kw kw_macro_definition 0)));               (* .macro .. block *)
+    map_p (fun _ => tt) (wr (slot W_segment 0) (keyword_p (kw kw_segment 0)));                                 (* .segment + optional block *)
+    map_p (fun _ => tt) (wr (slot W_loop_ 0) (keyword_p (kw kw_loop_ 0)));                                     (* .loop .. block *)
+    map_p (fun _ => tt) (wr (slot W_if_ 0) (keyword_p (kw kw_if_ 0)));                                         (* .if .. block [else block] *)
+    map_p (fun _ => tt) (wr (slot W_import 1) (keyword_p (kw kw_import 0)));                                   (* .import .. mws(from) .. [block] *)
+    map_p (fun _ => tt) (wr (slot W_test 0) (keyword_p (kw kw_test 0))) ].                                     (* .test .. block *)
+Definition block_heads_fail (y : text) : Prop :=
+  forall h, In h block_heads -> forall st o rest, snd (h st (mkIn o (y ++ 10 :: rest))) = Err.
+Definition simple_line (y : text) : Prop := lead y /\ block_heads_fail y.
+
+(* a sequence whose first part is local and fails on the line fails there whatever comes after it *)
+Lemma pair_fail_local2 {A B C} (L : text -> Prop) n (a : parser A) (t : parser B) (t' : parser C) :
+  local2 L n a a -> (forall y, L y -> forall st o rest, snd (a st (mkIn o (y ++ 10 :: rest))) = Err) ->
+  local2 L n (map_p (fun _ => tt) (pair_p a t)) (map_p (fun _ => tt) (pair_p a t')).
+Proof.
+  intros Ha Hf rest rest' st o y Hl HL Hn. pose proof (Ha rest rest' st o y Hl HL Hn) as H.
+  pose proof (Hf y HL st o rest) as F1. pose proof (Hf y HL st o rest') as F2. unfold map_p, pair_p, R2 in *.
+  destruct (a st (mkIn o (y ++ 10 :: rest))) as [s R], (a st (mkIn o (y ++ 10 :: rest'))) as [s' R']. cbn in *. subst. destruct H as [-> _]. split; cbn; auto.
+Qed.
+(* the same fact in the form the statement alternatives need: only the Err-ness and the state matter *)
+Definition fails_like {A B} (L : text -> Prop) n (p : parser A) (p' : parser B) : Prop :=
+  forall rest rest' st o y, lineb y = true -> L y -> (length y <= n)%nat ->
+    fst (p st (mkIn o (y ++ 10 :: rest))) = fst (p' st (mkIn o (y ++ 10 :: rest'))) /\
+    snd (p st (mkIn o (y ++ 10 :: rest))) = Err /\ snd (p' st (mkIn o (y ++ 10 :: rest'))) = Err.
+Lemma fails_local2 {A} L n (p p' : parser A) : fails_like L n p p' -> local2 L n p p'.
+Proof.
+  intros H rest rest' st o y Hl HL Hn. destruct (H rest rest' st o y Hl HL Hn) as [A1 [A2 A3]]. unfold R2. rewrite A1, A2, A3. auto.
+Qed.
+Lemma head_fails {A B C} (L : text -> Prop) n (a : parser A) (t : parser B) (t' : parser C) :
+  local2 L n a a -> (forall y, L y -> forall st o rest, snd (a st (mkIn o (y ++ 10 :: rest))) = Err) ->
+  fails_like L n (pair_p a t) (pair_p a t').
+Proof.
+  intros Ha Hf rest rest' st o y Hl HL Hn. pose proof (Ha rest rest' st o y Hl HL Hn) as H.
+  pose proof (Hf y HL st o rest) as F1. pose proof (Hf y HL st o rest') as F2. unfold pair_p, R2 in *.
+  destruct (a st (mkIn o (y ++ 10 :: rest))) as [s R], (a st (mkIn o (y ++ 10 :: rest'))) as [s' R']. cbn in *. subst. destruct H as [-> _]. auto.
+Qed.
+Lemma fails_map {A B C D} L n (f : A -> C) (g : B -> D) (p : parser A) (p' : parser B) :
+  fails_like L n p p' -> fails_like L n (map_p f p) (map_p g p').
+Proof.
+  intros H rest rest' st o y Hl HL Hn. destruct (H rest rest' st o y Hl HL Hn) as [A1 [A2 A3]]. unfold map_p.
+  destruct (p st _) as [s R], (p' st _) as [s' R']. cbn in *. subst. auto.
+Qed.
+Lemma fails_with_scope {A B C D} L n (f : A -> nat -> C) (g : B -> nat -> D) (p : parser A) (p' : parser B) :
+  fails_like L n p p' -> fails_like L n (with_scope p f) (with_scope p' g).
+Proof.
+  intros H rest rest' st o y Hl HL Hn. destruct (H rest rest' st o y Hl HL Hn) as [A1 [A2 A3]]. unfold with_scope.
+  destruct (p st _) as [s R], (p' st _) as [s' R']. cbn in *. subst. auto.
+Qed.
+
+Lemma map_err {A B} (f : A -> B) (p : parser A) st i : snd (map_p f p st i) = Err -> snd (p st i) = Err.
+Proof. unfold map_p. destruct (p st i) as [s [v r| |a]]; cbn; congruence. Qed.
+Lemma simple_lead y : simple_line y -> lead y. Proof. intros [H _]. exact H. Qed.
+Lemma head_of_simple {A} (a : parser A) : In (map_p (fun _ => tt) a) block_heads ->
+  forall y, simple_line y -> forall st o rest, snd (a st (mkIn o (y ++ 10 :: rest))) = Err.
+Proof. intros Hin y [_ Hf] st o rest. apply (map_err (fun _ => tt)). apply Hf. assumption. Qed.
+
+Lemma head2_fails {A B C D} (L : text -> Prop) n (x : parser A) (yp : parser B) (z : parser C) (z' : parser D) :
+  local2 L n x x -> local2 anyL n yp yp ->
+  (forall y, L y -> forall st o rest, snd (pair_p x yp st (mkIn o (y ++ 10 :: rest))) = Err) ->
+  fails_like L n (pair_p x (pair_p yp z)) (pair_p x (pair_p yp z')).
+Proof.
+  intros Hx Hy Hf rest rest' st o y Hl HL Hn. pose proof (Hx rest rest' st o y Hl HL Hn) as H.
+  pose proof (Hf y HL st o rest) as F1. pose proof (Hf y HL st o rest') as F2.
+  unfold pair_p in F1, F2 |- *. unfold R2 in H.
+  destruct (x st (mkIn o (y ++ 10 :: rest))) as [s [v r| |a]], (x st (mkIn o (y ++ 10 :: rest'))) as [s' [v' r'| |a']];
+    cbn in H; destruct H as [Hs H]; try contradiction; subst; cbn in F1, F2; try discriminate; auto.
+  destruct H as [-> [Ho [y2 [Hsf [Hr Hr']]]]].
+  pose proof (Hy rest rest' s' (off r) y2 (lineb_sfx _ _ Hsf Hl) I) as H2.
+  assert (Hlen : (length y2 <= n)%nat) by (apply sfx_length in Hsf; lia). specialize (H2 Hlen).
+  rewrite (input_eta r) in F1 |- *. rewrite (input_eta r') in F2 |- *. rewrite Hr in F1 |- *. rewrite Hr' in F2 |- *. rewrite <- Ho in F2 |- *.
+  unfold R2 in H2.
+  destruct (yp s' (mkIn (off r) (y2 ++ 10 :: rest))) as [t [w u| |b]], (yp s' (mkIn (off r) (y2 ++ 10 :: rest'))) as [t' [w' u'| |b']];
+    cbn in H2; destruct H2 as [Ht H2]; try contradiction; subst; cbn in F1, F2; try discriminate; auto.
+Qed.
+
+Section Forms.
+  Variables (n : nat) (ps ps' : parser token).
+
+  Lemma simple_head {A} w (a : parser A) : local a -> local2 simple_line n (wr w a) (wr w a).
+  Proof. intros Ha. eapply local2_weaken; [apply head_local2, Ha|]. apply simple_lead. Qed.
+
+  Lemma block_fails : fails_like simple_line n (block ps) (block ps').
+  Proof.
+    unfold block. apply fails_map. apply head_fails; [apply simple_head, char_local; discriminate|].
+    apply head_of_simple. cbn. auto.
+  Qed.
+  Lemma braces_fails : fails_like simple_line n (braces ps) (braces ps').
+  Proof. unfold braces. apply fails_with_scope. apply block_fails. Qed.
+  Lemma label_fails : fails_like simple_line n (label ps) (label ps').
+  Proof.
+    unfold label. apply fails_map. apply head2_fails.
+    - apply simple_head, identifier_name_local.
+    - apply wr_local2_inner; [not_mws|apply char_local; discriminate].
+    - apply head_of_simple. cbn. auto.
+  Qed.
+  Lemma config_definition_fails : fails_like simple_line n config_definition config_definition.
+  Proof.
+    unfold config_definition. apply fails_map. apply head_fails; [apply simple_head, keyword_local; reflexivity|].
+    apply head_of_simple. cbn. auto.
+  Qed.
+  Lemma macro_definition_fails : fails_like simple_line n (macro_definition ps) (macro_definition ps').
+  Proof.
+    unfold macro_definition. apply fails_map. apply head_fails; [apply simple_head, keyword_local; reflexivity|].
+    apply head_of_simple. cbn. auto 10.
+  Qed.
+  Lemma segment_fails : fails_like simple_line n (segment ps) (segment ps').
+  Proof.
+    unfold segment. apply fails_map. apply head_fails; [apply simple_head, keyword_local; reflexivity|].
+    apply head_of_simple. cbn. auto 10.
+  Qed.
+  Lemma loop_fails : fails_like simple_line n (loop_ ps) (loop_ ps').
+  Proof.
+    unfold loop_. apply fails_with_scope. apply head_fails; [apply simple_head, keyword_local; reflexivity|].
+    apply head_of_simple. cbn. auto 10.
+  Qed.
+  Lemma if_fails : fails_like simple_line n (if_ ps) (if_ ps').
+  Proof.
+    unfold if_. apply fails_map. apply head_fails; [apply simple_head, keyword_local; reflexivity|].
+    apply head_of_simple. cbn. auto 10.
+  Qed.
+  Lemma import_fails : fails_like simple_line n (import ps) (import ps').
+  Proof.
+    unfold import. apply fails_with_scope. apply head_fails; [apply simple_head, keyword_local; reflexivity|].
+    apply head_of_simple. cbn. auto 12.
+  Qed.
+  Lemma test_fails : fails_like simple_line n (test ps) (test ps').
+  Proof.
+    unfold test. apply fails_map. apply head_fails; [apply simple_head, keyword_local; reflexivity|].
+    apply head_of_simple. cbn. auto 12.
+  Qed.
+
+  Lemma statement_body_local2 : local2 simple_line n (statement_body ps) (statement_body ps').
+  Proof.
+    unfold statement_body. apply alts_map_local2. intros k _.
+    assert (W : forall p p' : parser token, local2 lead n p p' -> local2 simple_line n p p').
+    { intros p p' H. eapply local2_weaken; [exact H|apply simple_lead]. }
+    destruct k; cbn [stmt_parser].
+    - apply fails_local2, braces_fails.
+    - apply fails_local2, label_fails.
+    - apply W, instruction_local.
+    - apply W, varconst_impl_local. reflexivity.
+    - apply W, varconst_impl_local. reflexivity.
+    - apply W, pc_definition_local.
+    - apply fails_local2, config_definition_fails.
+    - apply fails_local2, macro_definition_fails.
+    - apply W, macro_invocation_local.
+    - apply W, data_local.
+    - apply fails_local2, segment_fails.
+    - apply fails_local2, loop_fails.
+    - apply fails_local2, if_fails.
+    - apply W, align_local.
+    - apply fails_local2, import_fails.
+    - apply W, text_local.
+    - apply W, file_local.
+    - apply fails_local2, test_fails.
+    - apply W, assert_local.
+    - apply W, trace_local.
+  Qed.
+End Forms.
+
+(* ---------------------------------------------------------------- the statement parser on a simple line *)
+(* For a line y without LF/CR/block-comment opener whose first non-blank character does not start a line comment and
+   which is not the head of a block-bearing form: `statement` reads nothing beyond the LF.  State, result, value
+   (spans included) and consumed part are the same for every continuation of the file. *)
+Theorem statement_line_local : forall y, lineb y = true -> simple_line y ->
+  forall rest rest' st o, R2 y rest rest' (statement st (mkIn o (y ++ 10 :: rest))) (statement st (mkIn o (y ++ 10 :: rest'))).
+Proof.
+  intros y Hl Hs rest rest' st o. unfold statement. cbn [rem statement_fuel].
+  apply (statement_body_local2 (length y)); auto.
+Qed.
+
+(* the form asked for by C01: compared with the line standing alone *)
+Theorem newline_local : forall y rest st o st1 v r, lineb y = true -> simple_line y ->
+  statement st (mkIn o (y ++ [10])) = (st1, Ok v r) ->
+  exists r', statement st (mkIn o (y ++ 10 :: rest)) = (st1, Ok v r') /\ off r' = off r /\
+             exists y2, sfx y2 y /\ rem r = y2 ++ [10] /\ rem r' = y2 ++ 10 :: rest.
+Proof.
+  intros y rest st o st1 v r Hl Hs E. pose proof (statement_line_local y Hl Hs [] rest st o) as H. unfold R2 in H. rewrite E in H.
+  destruct (statement st (mkIn o (y ++ 10 :: rest))) as [s' [v' r'| |a]]; cbn in H; destruct H as [Hst H]; try contradiction.
+  destruct H as [-> [Ho [y2 [Hsf [Hr Hr']]]]]. subst. exists r'. split; [reflexivity|]. split; [auto|]. exists y2. auto.
+Qed.
+(* ... and failure / abort of the statement parser on the line is the same as well (the error token is then produced by `error`) *)
+Theorem newline_local_err : forall y rest st o st1, lineb y = true -> simple_line y ->
+  statement st (mkIn o (y ++ [10])) = (st1, Err) -> statement st (mkIn o (y ++ 10 :: rest)) = (st1, Err).
+Proof.
+  intros y rest st o st1 Hl Hs E. pose proof (statement_line_local y Hl Hs [] rest st o) as H. unfold R2 in H. rewrite E in H.
+  destruct (statement st (mkIn o (y ++ 10 :: rest))) as [s' [v' r'| |a]]; cbn in H; destruct H as [Hst H]; try contradiction. subst. reflexivity.
+Qed.
+
+(* ---------------------------------------------------------------- decidable sufficient conditions for `simple_line` *)
+Definition kw_match (k s : text) : bool :=
+  match take_bytes s (length k) with
+  | BExact a b => ci_eqb a k && negb (word_tag k && starts_ident b)
+  | _ => false
+  end.
+Lemma tag_no_case_err k st i : kw_match k (rem i) = false -> snd (tag_no_case k st i) = Err.
+Proof.
+  unfold kw_match, tag_no_case. destruct (take_bytes (rem i) (length k)) as [a b| |]; auto. intros ->. reflexivity.
+Qed.
+Lemma starts_ident_line0 b rest : starts_ident (b ++ 10 :: rest) = starts_ident b.
+Proof. destruct b; reflexivity. Qed.
+Lemma kw_match_line k y rest : no10 k = true -> kw_match k (y ++ 10 :: rest) = kw_match k y.
+Proof.
+  intros Hk. unfold kw_match. pose proof (take_bytes_line y (length k) rest) as H.
+  destruct (take_bytes y (length k)) as [a b| |].
+  - rewrite H, starts_ident_line0. reflexivity.
+  - destruct (take_bytes (y ++ 10 :: rest) (length k)) as [a b| |]; auto. rewrite (ci_eqb_in10 a k H Hk). reflexivity.
+  - rewrite H. reflexivity.
+Qed.
+
+Lemma mws_err {A} (q : parser A) y : lineb y = true -> lead y ->
+  (forall st o rest, snd (q st (mkIn o (snd (take_while is_space y) ++ 10 :: rest))) = Err) ->
+  forall st o rest, snd (mws q st (mkIn o (y ++ 10 :: rest))) = Err.
+Proof.
+  intros Hl HL Hq st o rest. destruct (opt_multiline_on_lead y Hl HL) as [tf Ho]. unfold mws, with_trivia. rewrite Ho.
+  specialize (Hq st (o + blen (fst (take_while is_space y))) rest). destruct (q st _) as [s [v r| |a]]; cbn in *; congruence.
+Qed.
+Lemma map_err_intro {A B} (f : A -> B) (p : parser A) st i : snd (p st i) = Err -> snd (map_p f p st i) = Err.
+Proof. unfold map_p. destruct (p st i) as [s [v r| |a]]; cbn; congruence. Qed.
+Lemma pair_err_first {A B} (p : parser A) (q : parser B) st i : snd (p st i) = Err -> snd (pair_p p q st i) = Err.
+Proof. unfold pair_p. destruct (p st i) as [s [v r| |a]]; cbn; congruence. Qed.
+Lemma char_err c st o x z : x <> c -> snd (char_p c st (mkIn o (x :: z))) = Err.
+Proof. intros H. unfold char_p, satisfy. cbn. destruct (c =? x) eqn:E; [apply N.eqb_eq in E; congruence|reflexivity]. Qed.
+Lemma identifier_name_err st o c z : is_alpha c = false -> c <> 95 -> snd (identifier_name st (mkIn o (c :: z))) = Err.
+Proof.
+  intros Ha Hu. unfold identifier_name, recognize, pair_p, alt, alpha1, take_while1_p, tag, t_underscore. cbn [rem take_while is_prefix].
+  rewrite Ha. assert (E : (c =? 95) = false) by (apply N.eqb_neq; assumption). rewrite E. reflexivity.
+Qed.
+
+Definition block_keywords : list text :=
+  map fst [kw kw_config_definition 0; kw kw_macro_definition 0; kw kw_segment 0; kw kw_loop_ 0; kw kw_if_ 0; kw kw_import 0; kw kw_test 0].
+
+(* (a) the first non-blank character cannot start an identifier and is not `{`, and none of the block keywords is there:
+       directive lines such as `.byte 1, 2`, `* = $1000`, `.const a = 1` *)
+Definition nonword_line_ok (y2 : text) : bool :=
+  match y2 with
+  | c :: _ => negb (is_alpha c) && negb (c =? 95) && negb (c =? 123)
+  | [] => false
+  end && forallb (fun k => negb (kw_match k y2)) block_keywords.
+
+Lemma keyword_head_err k y : lineb y = true -> lead y -> no10 k = true -> kw_match k (snd (take_while is_space y)) = false ->
+  forall st o rest, snd (map_p (fun _ => tt) (mws (keyword_p (k, k))) st (mkIn o (y ++ 10 :: rest))) = Err.
+Proof.
+  intros Hl HL Hk Hm st o rest. apply map_err_intro. apply mws_err; auto. intros st1 o1 rest1.
+  unfold keyword_p. apply map_err_intro. apply tag_no_case_err. cbn [rem fst]. rewrite kw_match_line by assumption. assumption.
+Qed.
+
+Lemma block_heads_fail_nonword y : lineb y = true -> lead y -> nonword_line_ok (snd (take_while is_space y)) = true -> block_heads_fail y.
+Proof.
+  intros Hl HL Hok. unfold nonword_line_ok in Hok. apply andb_true_iff in Hok. destruct Hok as [Hc Hk].
+  destruct (snd (take_while is_space y)) as [|c r] eqn:Ey2; [discriminate|].
+  apply andb_true_iff in Hc. destruct Hc as [Hc H123]. apply andb_true_iff in Hc. destruct Hc as [Ha H95].
+  apply negb_true_iff in Ha, H95, H123. apply N.eqb_neq in H95, H123.
+  assert (Hkw : forall k, In k block_keywords -> kw_match k (c :: r) = false).
+  { intros k Hin. rewrite forallb_forall in Hk. apply negb_true_iff. apply Hk. assumption. }
+  intros h Hin st o rest. cbn in Hin.
+  destruct Hin as [<-|[<-|[<-|[<-|[<-|[<-|[<-|[<-|[<-|[]]]]]]]]]].
+  - apply map_err_intro. change (slot W_block 0) with W_mws. cbn [wr]. apply mws_err; auto. intros. rewrite Ey2. apply char_err. assumption.
+  - apply map_err_intro. apply pair_err_first. change (slot W_label 0) with W_mws. cbn [wr]. apply mws_err; auto. intros. rewrite Ey2.
+    apply identifier_name_err; assumption.
+  - change (slot W_config_definition 0) with W_mws. cbn [wr]. apply (keyword_head_err _ y Hl HL); [reflexivity|]. rewrite Ey2. apply Hkw. cbn. auto.
+  - change (slot W_macro_definition 0) with W_mws. cbn [wr]. apply (keyword_head_err _ y Hl HL); [reflexivity|]. rewrite Ey2. apply Hkw. cbn. auto.
+  - change (slot W_segment 0) with W_mws. cbn [wr]. apply (keyword_head_err _ y Hl HL); [reflexivity|]. rewrite Ey2. apply Hkw. cbn. auto.
+  - change (slot W_loop_ 0) with W_mws. cbn [wr]. apply (keyword_head_err _ y Hl HL); [reflexivity|]. rewrite Ey2. apply Hkw. cbn. auto.
+  - change (slot W_if_ 0) with W_mws. cbn [wr]. apply (keyword_head_err _ y Hl HL); [reflexivity|]. rewrite Ey2. apply Hkw. cbn. auto 6.
+  - change (slot W_import 1) with W_mws. cbn [wr]. apply (keyword_head_err _ y Hl HL); [reflexivity|]. rewrite Ey2. apply Hkw. cbn. auto 7.
+  - change (slot W_test 0) with W_mws. cbn [wr]. apply (keyword_head_err _ y Hl HL); [reflexivity|]. rewrite Ey2. apply Hkw. cbn. auto 8.
+Qed.
+
+(* (b) the line starts with a word (instruction, macro invocation ...): only the label head has to be excluded *)
+Definition label_head_fails (y : text) : Prop :=
+  forall st o rest, snd (pair_p (wr (slot W_label 0) identifier_name) (wr (slot W_label 1) (char_p 58)) st (mkIn o (y ++ 10 :: rest))) = Err.
+Lemma kw_match_dot k' c z : (is_alpha c || (c =? 95)) = true -> kw_match (46 :: k') (c :: z) = false.
+Proof.
+  intros Hc. unfold kw_match. cbn [length take_bytes].
+  assert (Hw : width_utf8 c = 1%nat).
+  { unfold width_utf8. assert (c < 128).
+    { apply orb_true_iff in Hc. destruct Hc as [Hc|Hc].
+      - unfold is_alpha in Hc. apply orb_true_iff in Hc. destruct Hc as [Hc|Hc]; apply andb_true_iff in Hc; destruct Hc as [_ Hc]; apply N.leb_le in Hc; lia.
+      - apply N.eqb_eq in Hc. lia. }
+    apply N.ltb_lt in H. rewrite H. reflexivity. }
+  rewrite Hw. cbn [Nat.leb]. destruct (take_bytes z (S (length k') - 1)) as [a b| |]; auto.
+  cbn [ci_eqb]. assert (E : (ascii_lower c =? ascii_lower 46) = false).
+  { apply N.eqb_neq. change (ascii_lower 46) with 46. intros E. unfold ascii_lower in E.
+    apply orb_true_iff in Hc. destruct Hc as [Hc|Hc].
+    - unfold is_alpha in Hc. destruct ((65 <=? c) && (c <=? 90)) eqn:E1.
+      + apply andb_true_iff in E1. destruct E1 as [A B]. apply N.leb_le in A. lia.
+      + cbn in Hc. apply andb_true_iff in Hc. destruct Hc as [A B]. apply N.leb_le in A. lia.
+    - apply N.eqb_eq in Hc. subst. cbn in E. discriminate. }
+  rewrite E. reflexivity.
+Qed.
+Lemma block_heads_fail_word y : lineb y = true -> lead y ->
+  match snd (take_while is_space y) with c :: _ => is_alpha c || (c =? 95) | [] => false end = true ->
+  label_head_fails y -> block_heads_fail y.
+Proof.
+  intros Hl HL Hc Hlab. destruct (snd (take_while is_space y)) as [|c r] eqn:Ey2; [discriminate|].
+  assert (H123 : c <> 123).
+  { intros ->. cbn in Hc. discriminate. }
+  intros h Hin st o rest. cbn in Hin.
+  destruct Hin as [<-|[<-|[<-|[<-|[<-|[<-|[<-|[<-|[<-|[]]]]]]]]]].
+  - apply map_err_intro. change (slot W_block 0) with W_mws. cbn [wr]. apply mws_err; auto. intros. rewrite Ey2. apply char_err. assumption.
+  - apply map_err_intro. apply Hlab.
+  - change (slot W_config_definition 0) with W_mws. cbn [wr]. apply (keyword_head_err _ y Hl HL); [reflexivity|]. rewrite Ey2. apply kw_match_dot. assumption.
+  - change (slot W_macro_definition 0) with W_mws. cbn [wr]. apply (keyword_head_err _ y Hl HL); [reflexivity|]. rewrite Ey2. apply kw_match_dot. assumption.
+  - change (slot W_segment 0) with W_mws. cbn [wr]. apply (keyword_head_err _ y Hl HL); [reflexivity|]. rewrite Ey2. apply kw_match_dot. assumption.
+  - change (slot W_loop_ 0) with W_mws. cbn [wr]. apply (keyword_head_err _ y Hl HL); [reflexivity|]. rewrite Ey2. apply kw_match_dot. assumption.
+  - change (slot W_if_ 0) with W_mws. cbn [wr]. apply (keyword_head_err _ y Hl HL); [reflexivity|]. rewrite Ey2. apply kw_match_dot. assumption.
+  - change (slot W_import 1) with W_mws. cbn [wr]. apply (keyword_head_err _ y Hl HL); [reflexivity|]. rewrite Ey2. apply kw_match_dot. assumption.
+  - change (slot W_test 0) with W_mws. cbn [wr]. apply (keyword_head_err _ y Hl HL); [reflexivity|]. rewrite Ey2. apply kw_match_dot. assumption.
+Qed.
+
+(* non-vacuity: `  .byte 1, 2 // c` is a simple line *)
+Example simple_line_example : let y := [32; 32; 46; 98; 121; 116; 101; 32; 49; 44; 32; 50; 32; 47; 47; 32; 99] in
+  lineb y = true /\ simple_line y.
+Proof.
+  cbv zeta. split; [reflexivity|]. split; [cbn; reflexivity|].
+  apply block_heads_fail_nonword; [reflexivity|cbn; reflexivity|vm_compute; reflexivity].
+Qed.
+Print Assumptions statement_line_local.
+Print Assumptions newline_local.
